@@ -236,8 +236,11 @@ func (s *Stream) grabFrame(n int) []byte {
 
 // sendMessageWithEnd sends a message with specified end flag
 func (s *Stream) sendMessageWithEnd(ctx context.Context, data []byte, end byte) error {
-	if len(data) > MaxMessageSize {
-		return fmt.Errorf("message too large: %d bytes (max %d)", len(data), MaxMessageSize)
+	// The limit applies to what the peer will see on the wire: its receive path
+	// rejects a frame whose header length (payload + AES-GCM tag, + IV on the
+	// first protected frame) exceeds MaxMessageSize.
+	if wireSize := s.calculateEncryptedSize(len(data)); wireSize > MaxMessageSize {
+		return fmt.Errorf("message too large: %d bytes, %d on the wire (max %d)", len(data), wireSize, MaxMessageSize)
 	}
 
 	var frame []byte
